@@ -3,7 +3,7 @@
 (* write histories (environment variable SHAPES: one JSON line per file and         *)
 (* snapshot k of a run, relative to the last sync snapshot: byte lengths, number    *)
 (* of changed blocks, section boundaries).  Output: one line                        *)
-(*    <<"FAULTS", json>>   json = {run, k, f, ds: [[kind, j, len], ...]}            *)
+(*    <<"FAULTS", json>>   json = {run, k, f, n, flen, ds: [[kind, j, len], ...]}          *)
 (* per shape with EVERY fault descriptor Descriptors(s) of DurableFile.tla: every   *)
 (* truncation length, every prefix-consistent mixture (old and new length), every   *)
 (* single-block rollback, header-new/data-old, data-new/header-old, the intact      *)
@@ -16,7 +16,7 @@ VARIABLE i
 
 ShapeOf(r) == [run |-> r.run, k |-> r.k, f |-> r.f, has_new |-> r.has_new, intact |-> r.intact,
                trunc |-> r.trunc, dense |-> r.dense, old_len |-> r.old_len, new_len |-> r.new_len,
-               nch |-> r.nch, hdr_changed |-> r.hdr_changed,
+               nch |-> r.nch, hdr_changed |-> r.hdr_changed, inplace |-> r.inplace,
                bounds |-> { r.bounds[x] : x \in 1..Len(r.bounds) }]
 
 Init == i = 1 /\ DInit
@@ -26,6 +26,6 @@ Spec == Init /\ [][Next]_<<i, sp, img>>
 Emit == i <= Len(Shapes) =>
           LET r == Shapes[i]
               D == Descriptors(ShapeOf(r))
-          IN PrintT(<<"FAULTS", ToJson([run |-> r.run, k |-> r.k, f |-> r.f, n |-> Cardinality(D),
+          IN PrintT(<<"FAULTS", ToJson([run |-> r.run, k |-> r.k, f |-> r.f, n |-> Cardinality(D), flen |-> r.new_len,
                                         ds |-> { <<d.kind, d.j, d.len>> : d \in D }])>>)
 =============================================================================
